@@ -70,8 +70,9 @@ multi-allocatable).  The property, on these entries:
   * a template device appears at most once per (NodeClaim, instance type);
   * a multi-allocatable device is not over-consumed: Σ over NodeClaims of the worst case over its instance types of the
     capacity consumed there ≤ the device's capacity;
-  * a shared counter is not over-consumed: the same worst case of the units the allocated counter-consuming devices
-    take ≤ the counter;
+  * a shared counter is not over-consumed: the units taken by the partitions that are in use in the cluster already,
+    plus the same worst case of the units the counter-consuming devices allocated in this pass take, ≤ the counter
+    (likewise the capacity of a multi-allocatable device that is partly consumed in the cluster already);
   * every claim got the number of devices it asked for, of the class it asked for, for every instance type it is
     allocated for, and a capacity request is accounted in full. -/
 
@@ -80,7 +81,8 @@ structure Entry where
   nc : String
   it : String
   dev : String
-  cls : String          -- gpu | tmpl | shared, from the driver of the device
+  pool : String
+  cls : String          -- gpu | tmpl | shared | part, from the driver of the device
   template : Bool
   consumed : Int
 deriving Repr
@@ -103,35 +105,91 @@ def worstCase (entries : List Entry) (d : String) : Int :=
     let its := ((es.filter (·.nc == nc)).map (·.it)).eraseDups
     maxInt0 (its.map (fun it => sumInt ((es.filter (fun e => e.nc == nc && e.it == it)).map (·.consumed))))))
 
-/-- worst-case consumption of the shared counter by the counter-consuming devices (`weights`: device ↦ units):
-    Σ over NodeClaims of the max over instance types -/
-def worstCounter (weights : List (String × Int)) (entries : List Entry) : Int :=
-  let es := entries.filter (fun e => e.cls == "part")
+/-- a pool of counter-consuming devices (partitions of a partitionable device): the shared counter it declares and, per
+    device, the units it consumes and whether it is already allocated in the cluster.  How the pool's slices are
+    published (cluster-wide, node-local, by node selector, split over several slices) is deliberately NOT part of the
+    specification: the counter is one budget whoever can reach the devices. -/
+structure CPool where
+  name : String
+  slots : Int
+  parts : List (String × Int × Bool)
+deriving Repr
+
+def CPool.has (p : CPool) (d : String) : Bool := p.parts.any (·.1 == d)
+def CPool.weight (p : CPool) (d : String) : Int := ((p.parts.find? (·.1 == d)).map (·.2.1)).getD 0
+
+/-- the units consumed by the partitions that are already allocated in the cluster -/
+def CPool.preConsumed (p : CPool) : Int := sumInt ((p.parts.filter (·.2.2)).map (·.2.1))
+
+/-- worst-case consumption of the pool's shared counter by the published allocations: Σ over NodeClaims of the max over
+    instance types of the units the devices allocated there take -/
+def worstCounter (p : CPool) (entries : List Entry) : Int :=
+  let es := entries.filter (fun e => e.cls == "part" && e.pool == p.name)
   let ncs := (es.map (·.nc)).eraseDups
   sumInt (ncs.map (fun nc =>
     let its := ((es.filter (·.nc == nc)).map (·.it)).eraseDups
-    maxInt0 (its.map (fun it => sumInt ((es.filter (fun e => e.nc == nc && e.it == it)).map (fun e => (weights.lookup e.dev).getD 0))))))
+    maxInt0 (its.map (fun it => sumInt ((es.filter (fun e => e.nc == nc && e.it == it)).map (fun e => p.weight e.dev))))))
 
-def metaOK (prealloc : List String) (sharedCap : List (String × Int)) (weights : List (String × Int)) (slots : Int)
+/-- no shared counter is over-consumed: what is in use in the cluster plus the worst case of what this pass hands out
+    stays within the counter (a pool from which the pass hands out nothing is not judged: whatever the cluster did before
+    is not this pass's doing) -/
+def countersOK (pools : List CPool) (entries : List Entry) : Option String :=
+  match entries.find? (fun e => e.cls == "part" && !pools.any (fun p => p.name == e.pool && p.has e.dev)) with
+  | some e => some s!"claim {e.claim} got {e.pool}/{e.dev}, which no published slice offers"
+  | none =>
+    pools.findSome? (fun p =>
+      let w := worstCounter p entries
+      if w > 0 && p.preConsumed + w > p.slots then
+        some s!"shared counter of pool {p.name} over-consumed: partitions already allocated in the cluster consume {p.preConsumed}, the partitions allocated in this pass up to {w}, the counter is {p.slots}"
+      else none)
+
+/-- the partitionable device an instance type is expected to come with (template partitions): its counter and the units
+    each partition consumes; every (NodeClaim, instance type) has its own copy of the budget -/
+structure TPool where
+  it : String
+  slots : Int
+  parts : List (String × Int)
+deriving Repr
+
+/-- no template counter is over-consumed: for every NodeClaim and each of its instance types, the template partitions
+    allocated there fit the counter that instance type comes with -/
+def templateCountersOK (tpools : List TPool) (entries : List Entry) : Option String :=
+  let es := entries.filter (fun e => e.cls == "tpart")
+  es.findSome? (fun e =>
+    match tpools.find? (·.it == e.it) with
+    | none => some s!"claim {e.claim} got template partition {e.dev} for instance type {e.it}, which comes with no partitionable device"
+    | some tp =>
+      if !tp.parts.any (·.1 == e.dev) then some s!"claim {e.claim} got template partition {e.dev}, which instance type {e.it} does not have" else
+      let used := sumInt ((es.filter (fun g => g.nc == e.nc && g.it == e.it)).map (fun g => ((tp.parts.find? (·.1 == g.dev)).map (·.2)).getD 0))
+      if used > tp.slots then
+        some s!"template counter of instance type {e.it} over-consumed for NodeClaim {e.nc}: the template partitions allocated there consume {used}, the counter is {tp.slots}"
+      else none)
+
+/-- `shared`: multi-allocatable device ↦ (capacity, capacity already consumed in the cluster) -/
+def metaOK (prealloc : List String) (shared : List (String × Int × Int)) (pools : List CPool) (tpools : List TPool)
     (claims : List ClaimSpec) (entries : List Entry) : Option String :=
   let excl := entries.filter (fun e => e.cls == "gpu" || e.cls == "part")
-  let tmpl := entries.filter (fun e => e.cls == "tmpl")
+  let tmpl := entries.filter (fun e => e.cls == "tmpl" || e.cls == "tpart")
   match excl.find? (fun e => excl.any (fun g => g.dev == e.dev && g.nc != e.nc)) with
   | some e => some s!"exclusive device {e.dev} is assigned to claims of two NodeClaims"
   | none =>
   let exTriples := excl.map (fun e => (e.dev, e.nc, e.it))
   if exTriples.eraseDups.length != exTriples.length then some "an exclusive device is assigned twice for one (NodeClaim, instance type)" else
-  match excl.find? (fun e => prealloc.contains e.dev) with
+  match excl.find? (fun e => prealloc.contains e.dev || pools.any (fun p => p.name == e.pool && p.parts.any (fun d => d.1 == e.dev && d.2.2))) with
   | some e => some s!"device {e.dev} is already allocated in the cluster, yet it is assigned to claim {e.claim}"
   | none =>
   let tTriples := tmpl.map (fun e => (e.dev, e.nc, e.it))
   if tTriples.eraseDups.length != tTriples.length then some "a template device is assigned twice for one (NodeClaim, instance type)" else
-  if entries.any (fun e => (e.cls == "tmpl") != e.template) then some "a template flag does not match the device's origin" else
-  match sharedCap.find? (fun (d, c) => worstCase entries d > c) with
-  | some (d, c) => some s!"multi-allocatable device {d}: worst-case consumption {worstCase entries d} exceeds its capacity {c}"
+  if entries.any (fun e => (e.cls == "tmpl" || e.cls == "tpart") != e.template) then some "a template flag does not match the device's origin" else
+  match shared.find? (fun (d, c, pre) => worstCase entries d > 0 && pre + worstCase entries d > c) with
+  | some (d, c, pre) => some s!"multi-allocatable device {d}: {pre} consumed in the cluster already + worst-case consumption {worstCase entries d} of this pass exceeds its capacity {c}"
   | none =>
-  if worstCounter weights entries > slots then
-    some s!"shared counter: worst-case consumption {worstCounter weights entries} by the allocated partitions exceeds the counter {slots}" else
+  match countersOK pools entries with
+  | some w => some w
+  | none =>
+  match templateCountersOK tpools entries with
+  | some w => some w
+  | none =>
   entries.findSome? (fun e =>
     match claims.find? (·.name == e.claim) with
     | none => some s!"allocation for unknown claim {e.claim}"
